@@ -214,6 +214,7 @@ def h_make_cref(cref):
             toks = parser.parms.scanner.scan(cref[star][rep])
             for t in toks:
                 t.pos = pos
+                t.pos_fix = True
             return toks
         return utils.latex_error(msg_cref_undefined.format(mac.name,rep),
                                  pos, parser.latex, parser.parms)
@@ -228,6 +229,7 @@ def h_make_crefrange(cref):
             toks = parser.parms.scanner.scan(cref[star][rep])
             for t in toks:
                 t.pos = pos
+                t.pos_fix = True
             return toks
         return utils.latex_error(msg_crefrange_undefined.format(mac.name,*rep),
                                  pos, parser.latex, parser.parms)
